@@ -70,7 +70,7 @@ func (v DenseInt32Vector) APPEND(w DenseInt32Vector) DenseInt32Vector {
   return append(v, w...)
 }
 func (v DenseInt32Vector) ToDenseInt32Matrix(n, m int) *DenseInt32Matrix {
-  if n*m != len(v) {
+  if n < 0 || m < 0 || n*m != len(v) {
     panic("Matrix dimension does not fit input vector!")
   }
   matrix := DenseInt32Matrix{}
